@@ -44,7 +44,7 @@ func genLookalike(t *rapid.T) (string, string) {
 		return rapid.SampledFrom([]string{"1h30m", "90s", "1.5h", "-2m", "100ms", "1us", "P1D", "PT1H", "P1Y2M3DT4H5M6S", "1d", "2w", "UTC", "Local", "Asia/Shanghai", "Z", "+08:00", "-0700", "GMT+8", "Mon", "Monday", "Jan", "January", "AM", "pm"}).Draw(t, "duration"), "duration-or-zone"
 	case 8:
 		a := rapid.StringMatching(`[0-9a-f]{8}`).Draw(t, "a")
-		return rapid.SampledFrom([]string{a + "-0000-4000-8000-" + a + "0000", "https://example.com/?a=1&b=2", "user@example.com", "/a/b/../c", `C:\dir\file`, "a.b.c", "192.168.0.1", "::1", "[::1]:80", "aGVsbG8=", "aGVsbG8", "data:text/plain;base64,QQ==", "#fff", "rgb(1,2,3)", "1.2.3", "v1.2.3-rc1+build"}).Draw(t, "misc"), "identifier-like"
+		return rapid.SampledFrom([]string{a + "-0000-4000-8000-" + a + "0000", "https://example.com/?a=1&b=2", "user@example.com", "/a/b/../c", `C:\dir\file`, "a.b.c", "192.168.0.1", "::1", "[::1]:80", "aGVsbG8=", "aGVsbG8", "data:text/plain;base64,QQ==", "#fff", "rgb(1,2,3)", "1.2.3", "v1.2.3-rc1+build", "__proto__", "__v", "___", "$x", "_", "len", "typeof x"}).Draw(t, "misc"), "identifier-like"
 	default:
 		y := rapid.IntRange(0, 9999).Draw(t, "y")
 		m := rapid.IntRange(0, 13).Draw(t, "m")
@@ -62,7 +62,8 @@ func genLookalike(t *rapid.T) (string, string) {
 var lookalikeFixed = func() []string {
 	out := []string{"2024-01-02T03:04:05Z", "2024-01-02T03:04:05+08:00", "2024-01-02T03:04:05.123456789Z", "0001-01-01T00:00:00Z", "1970-01-01T00:00:00Z", "9999-12-31T23:59:59Z", "2024-02-29", "2024-01-02 03:04:05", "03:04:05", "Mon, 02 Jan 2006 15:04:05 MST", "20240102",
 		"123", "-123", "+1", "1.50", ".5", "5.", "1e5", "1E-5", "0x10", "0X1F", "0b11", "0o17", "017", "1_000", "NaN", "Infinity", "-Infinity", "-0", "1e400", "12345678901234567890123456789012345678901234567890", "0.1000", " 1", "1 ",
-		"true", "false", "null", "nil", "this", "undefined", "<nil>", "typeof", "[]", "{}", "[1,2]", `{"a":1}`, "map[a:1]", "1+1", "$a", "now()", "len('x')", "'x'", "a.b", "%s", "%d", "%!v(PANIC=x)", "1h30m", "UTC", "Asia/Shanghai", "+08:00"}
+		"true", "false", "null", "nil", "this", "undefined", "<nil>", "typeof", "[]", "{}", "[1,2]", `{"a":1}`, "map[a:1]", "1+1", "$a", "now()", "len('x')", "'x'", "a.b", "%s", "%d", "%!v(PANIC=x)", "1h30m", "UTC", "Asia/Shanghai", "+08:00",
+		"__proto__", "__v", "__", "___x", "_", "$a", "$", "$$", "__typename", "constructor", "toString", "len", "max"}
 	return out
 }()
 
